@@ -36,13 +36,20 @@ var boundsTabled = map[string]string{
 }
 
 type lenFacts struct {
-	min   map[string]int     // access path -> proven lower bound of len
-	eq    map[[2]string]bool // pairs of access paths with equal len
-	slack map[[2]string]int  // (index variable, access path) -> c+1 where i + c < len(path) is proven
+	min   map[string]int      // access path -> proven lower bound of len
+	eq    map[[2]string]bool  // pairs of access paths with equal len
+	slack map[[2]string]int   // (index variable, access path) -> c+1 where i + c < len(path) is proven
+	impl  map[string]implFact // boolean variable -> "when it is true, len(path) >= n" (postcondition of a (slice, ok) helper)
+	sym   map[string]string   // access path -> identifier path: len(path) >= value of that identifier (only used to summarise helpers)
+}
+
+type implFact struct {
+	path string
+	n    int
 }
 
 func newFacts() *lenFacts {
-	return &lenFacts{min: map[string]int{}, eq: map[[2]string]bool{}, slack: map[[2]string]int{}}
+	return &lenFacts{min: map[string]int{}, eq: map[[2]string]bool{}, slack: map[[2]string]int{}, impl: map[string]implFact{}, sym: map[string]string{}}
 }
 
 func (f *lenFacts) clone() *lenFacts {
@@ -55,6 +62,12 @@ func (f *lenFacts) clone() *lenFacts {
 	}
 	for k, v := range f.slack {
 		g.slack[k] = v
+	}
+	for k, v := range f.impl {
+		g.impl[k] = v
+	}
+	for k, v := range f.sym {
+		g.sym[k] = v
 	}
 	return g
 }
@@ -104,6 +117,12 @@ func (f *lenFacts) union(g *lenFacts) {
 	for k := range g.eq {
 		f.eq[k] = true
 	}
+	for k, v := range g.impl {
+		f.impl[k] = v
+	}
+	for k, v := range g.sym {
+		f.sym[k] = v
+	}
 }
 
 // meet: keep what holds in both.
@@ -137,12 +156,32 @@ func meet(a, b *lenFacts) *lenFacts {
 			}
 		}
 	}
+	for k, v := range a.impl {
+		if w, ok := b.impl[k]; ok && w == v {
+			r.impl[k] = v
+		}
+	}
+	for k, v := range a.sym {
+		if w, ok := b.sym[k]; ok && w == v {
+			r.sym[k] = v
+		}
+	}
 	return r
 }
 
 func (f *lenFacts) equal(g *lenFacts) bool {
-	if len(f.min) != len(g.min) || len(f.eq) != len(g.eq) || len(f.slack) != len(g.slack) {
+	if len(f.min) != len(g.min) || len(f.eq) != len(g.eq) || len(f.slack) != len(g.slack) || len(f.impl) != len(g.impl) || len(f.sym) != len(g.sym) {
 		return false
+	}
+	for k, v := range f.impl {
+		if g.impl[k] != v {
+			return false
+		}
+	}
+	for k, v := range f.sym {
+		if g.sym[k] != v {
+			return false
+		}
 	}
 	for k, v := range f.slack {
 		if g.slack[k] != v {
@@ -176,6 +215,16 @@ func (f *lenFacts) kill(root string, appendOnly bool) {
 	for k := range f.slack {
 		if pathHasRoot(k[0], root) || (!appendOnly && pathHasRoot(k[1], root)) {
 			delete(f.slack, k)
+		}
+	}
+	for k, v := range f.impl {
+		if pathHasRoot(k, root) || (!appendOnly && pathHasRoot(v.path, root)) {
+			delete(f.impl, k)
+		}
+	}
+	for k, v := range f.sym {
+		if (!appendOnly && pathHasRoot(k, root)) || pathHasRoot(v, root) {
+			delete(f.sym, k)
 		}
 	}
 }
@@ -329,6 +378,13 @@ func lenArg(info *types.Info, e ast.Expr) (string, bool) {
 // condFacts: facts established when cond evaluates to truth.
 func condFacts(info *types.Info, cond ast.Expr, truth bool, out *lenFacts) {
 	switch x := ast.Unparen(cond).(type) {
+	case *ast.Ident:
+		// `ok` of `x, ok := helper(...)`: the helper's postcondition
+		if truth {
+			if im, has := out.impl[accessPath(info, x)]; has {
+				out.addMin(im.path, im.n)
+			}
+		}
 	case *ast.UnaryExpr:
 		if x.Op == token.NOT {
 			condFacts(info, x.X, !truth, out)
@@ -368,6 +424,22 @@ func condFacts(info *types.Info, cond ast.Expr, truth bool, out *lenFacts) {
 						out.addSlack(iv, lp, c1+c2)
 					case token.LEQ: // iv + c1 <= len - c2 =>  iv + (c1+c2-1) < len
 						out.addSlack(iv, lp, c1+c2-1)
+					}
+				}
+			}
+			// len(P) >= IDENT (a parameter): symbolic lower bound, used to summarise (slice, ok) helpers
+			if lp, ok := lenArg(info, l); ok {
+				if id, isId := ast.Unparen(r).(*ast.Ident); isId {
+					if _, isC := intConst(info, r); !isC {
+						eff := op
+						if !truth {
+							eff = map[token.Token]token.Token{token.GTR: token.LEQ, token.GEQ: token.LSS, token.LSS: token.GEQ, token.LEQ: token.GTR, token.EQL: token.NEQ, token.NEQ: token.EQL}[op]
+						}
+						if eff == token.GEQ || eff == token.EQL {
+							if ip := accessPath(info, id); ip != "" {
+								out.sym[lp] = ip
+							}
+						}
 					}
 				}
 			}
@@ -458,6 +530,8 @@ func runBounds(c *core.Ctx, filter func(pkgRel, fn string) bool) {
 	total, inScope, outScope := 0, 0, 0
 	tabledSeen := map[string]bool{}
 	var allBodies []*boundsFn
+	boundsHelperDecls = map[*types.Func]*boundsFn{}
+	boundsHelperParams = map[*types.Func]*ast.FieldList{}
 	for _, pk := range p.Mod {
 		rel := strings.TrimPrefix(strings.TrimPrefix(pk.PkgPath, load.ModPath), "/")
 		if rel == "testutils" {
@@ -481,7 +555,12 @@ func runBounds(c *core.Ctx, filter func(pkgRel, fn string) bool) {
 					name = rel + ".(" + types.ExprString(fd.Recv.List[0].Type) + ")." + fd.Name.Name
 				}
 				// the function body and every function literal inside get their own CFG
-				allBodies = append(allBodies, &boundsFn{pk: pk, rel: rel, name: name, body: fd.Body})
+				bfn := &boundsFn{pk: pk, rel: rel, name: name, body: fd.Body}
+				allBodies = append(allBodies, bfn)
+				if obj, ok := pk.TypesInfo.Defs[fd.Name].(*types.Func); ok && fd.Recv == nil {
+					boundsHelperDecls[obj] = bfn
+					boundsHelperParams[obj] = fd.Type.Params
+				}
 				ast.Inspect(fd.Body, func(n ast.Node) bool {
 					if fl, ok := n.(*ast.FuncLit); ok {
 						allBodies = append(allBodies, &boundsFn{pk: pk, rel: rel, name: name + "$lit", body: fl.Body})
@@ -608,6 +687,16 @@ func analyseBody(bf *boundsFn) *bodyAnalysis {
 // applyNode: kills plus facts established by make().
 func applyNode(info *types.Info, n ast.Node, f *lenFacts) {
 	applyKills(info, n, f)
+	if as, ok := n.(*ast.AssignStmt); ok && len(as.Lhs) == 2 && len(as.Rhs) == 1 {
+		if call, ok := ast.Unparen(as.Rhs[0]).(*ast.CallExpr); ok {
+			if k, has := helperLenPost(info, call); has {
+				xp, okp := accessPath(info, as.Lhs[0]), accessPath(info, as.Lhs[1])
+				if xp != "" && okp != "" {
+					f.impl[okp] = implFact{xp, k}
+				}
+			}
+		}
+	}
 	if as, ok := n.(*ast.AssignStmt); ok && len(as.Lhs) == len(as.Rhs) {
 		for i := range as.Lhs {
 			// x := []T{a, b}: a literal without keys has exactly len(elts) elements
@@ -991,6 +1080,104 @@ func srcDirsElement(info *types.Info, parent map[ast.Node]ast.Node, ie *ast.Inde
 		return ok && f.Name() == "SrcDirs" && f.Pkg() != nil && f.Pkg().Path() == "go/build"
 	}
 	return false
+}
+
+// ---------------------------------------------------------------------------
+// postconditions of (slice, ok) helpers
+
+// boundsHelperDecls maps the module's function objects to their declarations; filled by runBounds.
+var boundsHelperDecls = map[*types.Func]*boundsFn{}
+var boundsHelperParams = map[*types.Func]*ast.FieldList{}
+var boundsHelperBusy = map[*types.Func]bool{}
+
+// helperLenPost: call is f(args) of a module function with results (sequence, bool) such that on every
+// `return E, true` the facts at that return prove len(E) >= k - k a constant, or the value of one of f's
+// parameters for which the call passes a constant. Returns that k.
+func helperLenPost(info *types.Info, call *ast.CallExpr) (int, bool) {
+	var fobj *types.Func
+	switch fn := ast.Unparen(call.Fun).(type) {
+	case *ast.Ident:
+		fobj, _ = info.Uses[fn].(*types.Func)
+	case *ast.SelectorExpr:
+		fobj, _ = info.Uses[fn.Sel].(*types.Func)
+	}
+	if fobj == nil {
+		return 0, false
+	}
+	bf, ok := boundsHelperDecls[fobj]
+	if !ok || boundsHelperBusy[fobj] {
+		return 0, false
+	}
+	sig, ok := fobj.Type().(*types.Signature)
+	if !ok || sig.Results().Len() != 2 || !isBoolT(sig.Results().At(1).Type()) {
+		return 0, false
+	}
+	boundsHelperBusy[fobj] = true
+	defer delete(boundsHelperBusy, fobj)
+	a := analyseBody(bf)
+	binfo := bf.pk.TypesInfo
+	best, found := 1<<30, false
+	okAll := true
+	ast.Inspect(bf.body, func(n ast.Node) bool {
+		if _, isLit := n.(*ast.FuncLit); isLit {
+			return false
+		}
+		ret, isRet := n.(*ast.ReturnStmt)
+		if !isRet || len(ret.Results) != 2 {
+			if isRet {
+				okAll = false // naked return / other arity: not summarised
+			}
+			return true
+		}
+		if id, isId := ast.Unparen(ret.Results[1]).(*ast.Ident); !isId || id.Name != "true" {
+			if isId && id.Name == "false" {
+				return true
+			}
+			okAll = false
+			return true
+		}
+		ep := accessPath(binfo, ret.Results[0])
+		if ep == "" {
+			okAll = false
+			return true
+		}
+		facts := a.factsAt(ret)
+		k := facts.min[ep]
+		if sp, has := facts.sym[ep]; has {
+			// which parameter, and what does the call pass?
+			idx := 0
+			if pl := boundsHelperParams[fobj]; pl != nil {
+				for _, fld := range pl.List {
+					for _, nm := range fld.Names {
+						if accessPath(binfo, nm) == sp && idx < len(call.Args) {
+							if cst, isC := intConst(info, call.Args[idx]); isC && cst > k {
+								k = cst
+							}
+						}
+						idx++
+					}
+				}
+			}
+		}
+		if k <= 0 {
+			okAll = false
+			return true
+		}
+		found = true
+		if k < best {
+			best = k
+		}
+		return true
+	})
+	if !found || !okAll {
+		return 0, false
+	}
+	return best, true
+}
+
+func isBoolT(t types.Type) bool {
+	b, ok := types.Unalias(t).Underlying().(*types.Basic)
+	return ok && b.Kind() == types.Bool
 }
 
 var _ = sort.Strings
